@@ -96,11 +96,33 @@ def _big_stack():
     except (ValueError, OSError):
         pass
 
+HANGS = [0]
+HANG_BUDGET = 4
+STALL = float(os.environ.get('VERIF_CASE_STALL', '20'))     # seconds without a new output line = one case is stuck
+CASE_TIMEOUT = float(os.environ.get('VERIF_SHARD_TIMEOUT', '240'))   # bin/check raises it for the thorough tier
+
+def _parse_out(path, res):
+    with open(path + '.out') as f:
+        for line in f:
+            line = line.rstrip('\n')
+            if not line:
+                continue
+            parts = line.split('\t')
+            d = {}
+            for kv in parts[1:]:
+                k, _, v = kv.partition('=')
+                d[k] = v
+            res[parts[0]] = d
+
 def run_cases(binary, lines, tag):
-    """Run `binary` over the case lines, sharded; returns {id: {key: value-string}}."""
+    """Run `binary` over the case lines, sharded; returns {id: {key: value-string}}.
+    A shard of the implementation harness that does not finish in time is killed: the first case without
+    output is reported as HANG (non-termination is an observation like a panic) and the rest of the shard is
+    run again in a fresh process.  A model shard that does not finish is an infrastructure failure."""
     os.makedirs(WORK, exist_ok=True)
     if not lines:
         return {}
+    impl = tag.startswith('impl') or tag == 'probe'
     nshard = max(1, min(NPROC, len(lines) // 200))
     shards = [lines[i::nshard] for i in range(nshard)]
     tmpd = tempfile.mkdtemp(prefix='cases-%s-' % tag, dir=WORK)
@@ -110,24 +132,65 @@ def run_cases(binary, lines, tag):
             path = os.path.join(tmpd, 's%d.cases' % i)
             with open(path, 'w') as f:
                 f.write('\n'.join(sh_lines) + '\n')
-            procs.append((path, subprocess.Popen([binary, path], stdout=open(path + '.out', 'w'),
-                                                 stderr=subprocess.PIPE, text=True, preexec_fn=_big_stack)))
+            procs.append((path, sh_lines, subprocess.Popen([binary, path], stdout=open(path + '.out', 'w'),
+                                                           stderr=subprocess.PIPE, text=True, preexec_fn=_big_stack)))
         res = {}
-        for path, p in procs:
-            _, errtxt = p.communicate()
-            if p.returncode != 0:
-                raise Infra('%s failed: rc=%s %s' % (binary, p.returncode, (errtxt or '')[-2000:]))
-            with open(path + '.out') as f:
-                for line in f:
-                    line = line.rstrip('\n')
-                    if not line:
-                        continue
-                    parts = line.split('\t')
-                    d = {}
-                    for kv in parts[1:]:
-                        k, _, v = kv.partition('=')
-                        d[k] = v
-                    res[parts[0]] = d
+        t_end = time.time() + CASE_TIMEOUT * (1 if len(lines) < 20000 else 4)
+        retry = []
+        # poll: the implementation harness prints one line per case as it goes (Rust's stdout is line buffered),
+        # so a shard whose output has not grown for STALL seconds is stuck inside one case
+        live = {path: [sh_lines, p, 0, time.time()] for path, sh_lines, p in procs}
+        hung = []
+        while live:
+            time.sleep(0.05 if len(lines) < 2000 else 0.25)
+            now = time.time()
+            for path in list(live):
+                sh_lines, p, size, t_last = live[path]
+                if p.poll() is not None:
+                    errtxt = p.stderr.read() if p.stderr else ''
+                    if p.returncode != 0:
+                        for q in live.values():
+                            if q[1].poll() is None:
+                                q[1].kill()
+                        raise Infra('%s failed: rc=%s %s' % (binary, p.returncode, (errtxt or '')[-2000:]))
+                    _parse_out(path, res)
+                    del live[path]
+                    continue
+                try:
+                    sz = os.path.getsize(path + '.out')
+                except OSError:
+                    sz = 0
+                if sz != size:
+                    live[path][2], live[path][3] = sz, now
+                elif (impl and now - t_last > STALL) or now > t_end:
+                    p.kill()
+                    p.wait()
+                    if not impl:
+                        for q in live.values():
+                            if q[1].poll() is None:
+                                q[1].kill()
+                        raise Infra('%s did not finish a shard within %.0f s' % (binary, CASE_TIMEOUT))
+                    hung.append((path, sh_lines))
+                    del live[path]
+        for path, sh_lines in hung:
+            part = {}
+            _parse_out(path, part)
+            res.update(part)
+            ids = [l.split(' ', 1)[0] for l in sh_lines]
+            missing = [k for k, i_ in enumerate(ids) if i_ not in part]
+            if missing:
+                k = missing[0]
+                res[ids[k]] = {key: 'HANG' for key in ('r', 'size', 'writes', 'items')}
+                HANGS[0] += 1
+                if HANGS[0] <= HANG_BUDGET:
+                    retry += sh_lines[k + 1:]
+                else:
+                    # enough evidence of non-termination: do not spend STALL seconds on every further case
+                    for i_ in ids[k + 1:]:
+                        if i_ not in res:
+                            res[i_] = {'SKIPPED': 'after-hang'}
+        if retry:
+            res.update(run_cases(binary, retry, tag))
         return res
     finally:
         shutil.rmtree(tmpd, ignore_errors=True)
